@@ -1,6 +1,6 @@
 (* Hist.v — the operations of a history beyond the core mutators of Model/Manip.v: the calls that are built on top
    of them (remove_insignificant_whitespace, ...).  No proofs here. *)
-From XotV Require Import Model.Base Model.Zipper Model.Access Model.Store Model.Manip Model.Unpretty Model.Interning Model.NsTools.
+From XotV Require Import Model.Base Model.Zipper Model.Access Model.Store Model.Manip Model.Unpretty Model.Interning Model.Fullname Model.Scope Model.NsTools.
 Open Scope N_scope.
 
 Inductive hop :=
@@ -27,7 +27,36 @@ Fixpoint hrun (st : xstate) (ops : list hop) : list (mout * xstate) :=
 Inductive top :=
 | TH (o : hop)
 | TCmp (n : N)           (* create_missing_prefixes(n) *)
-| TDedup (n : N).        (* deduplicate_namespaces(n) *)
+| TDedup (n : N)         (* deduplicate_namespaces(n) *)
+| TCloneP (n : N) (order : list prefixid).
+                         (* clone_with_prefixes(n); [order] = the order in which the hash map of inherited prefixes was
+                            walked, as observed on the implementation: the model checks that it is a permutation of the
+                            prefixes it expects to be added and inserts them in that order *)
+
+Definition same_set (a b : list N) : bool :=
+  Nat.eqb (length a) (length b) && forallb (fun x => existsb (N.eqb x) b) a && forallb (fun x => existsb (N.eqb x) a) b.
+
+(* Xot::clone_with_prefixes *)
+Definition clone_with_prefixes (nm : nsnames) (st : xstate) (n : N) (order : list prefixid) : xstate * mout :=
+  match cur st n with
+  | None => (st, MPanic)
+  | Some z =>
+      let inherited := inherited_prefixes (ns_empty_prefix nm) (ns_xml_prefix nm) (ns_no_ns nm) (ns_xml_ns nm) (ns_of_name nm) z in
+      let '(st1, out) := m_clone st n in
+      match out with
+      | MDone (Some c) =>
+          if is_type st1 c TElement then
+            let to_add := filter (fun d => match map_get_node st1 KNs c (fst d) with Some _ => false | None => true end) inherited in
+            if same_set (map fst to_add) order then
+              (fold_left (fun s p => match assoc_p p to_add with
+                                     | Some ns => map_insert s KNs c (VNamespace p ns)
+                                     | None => s
+                                     end) order st1, MDone (Some c))
+            else (st1, MPanic)
+          else (st1, out)
+      | _ => (st1, out)
+      end
+  end.
 
 Definition tstep (nm : nsnames) (ts : tables * xstate) (o : top) : (tables * xstate) * mout :=
   let '(t, st) := ts in
@@ -39,6 +68,7 @@ Definition tstep (nm : nsnames) (ts : tables * xstate) (o : top) : (tables * xst
       | NErrNotElement => ((t, st), MErr ENotElement)
       | NPanic => ((t, st), MPanic)
       end
+  | TCloneP n order => let '(st', out) := clone_with_prefixes nm st n order in ((t, st'), out)
   | TDedup n =>
       match deduplicate_namespaces nm st n with
       | Some st' => ((t, st'), MDone None)
